@@ -893,7 +893,7 @@ func famParse(tr *Trace, id *int) int {
 		}
 	}
 	// (b) expansion of every string-valued leaf
-	raws := []struct{ raw, tag string }{{"John Doe <john@example.com>", "mailbox"}, {"john.doe@example.com", "bareaddr"}, {"\"$EMPTYV\" <$VAR@example.com>", "emptyquoted"}, {"Zo\u00eb D\u00f6 <zoe@example.com>", "mailbox8"},{"pre-$VAR-post", "dollar"}, {"pre-${VAR}-post", "brace"}, {"plain value", "plain"}, {"  ${VAR}  ", "padded"}, {"${EMPTYV}", "vanish"}, {"$VAR$OTHER", "two"}, {"  padded plain  ", "paddedplain"}, {"~/keys/plain.key", "tilde"}, {"~${VAR}/x", "tildevar"}}
+	raws := []struct{ raw, tag string }{{"John Doe <john@example.com>", "mailbox"}, {"john.doe@example.com", "bareaddr"}, {"\"$EMPTYV\" <$VAR@example.com>", "emptyquoted"}, {"Zo\u00eb D\u00f6 <zoe@example.com>", "mailbox8"}, {"pre-$VAR-post", "dollar"}, {"pre-${VAR}-post", "brace"}, {"plain value", "plain"}, {"  ${VAR}  ", "padded"}, {"${EMPTYV}", "vanish"}, {"$VAR$OTHER", "two"}, {"  padded plain  ", "paddedplain"}, {"~/keys/plain.key", "tilde"}, {"~${VAR}/x", "tildevar"}}
 	envs := []map[string]string{{"VAR": "val", "OTHER": "o2", "HOME": "/home/builder", "USER": "builder"}, {}, {"VAR": "  spaced  "}}
 	for _, k := range paths {
 		if k.Kind != "string" && k.Kind != "list" && k.Kind != "map" && k.Kind != "ptr" {
